@@ -108,6 +108,26 @@ CHECKS = [
               "the index time is unconstrained",
          technique="TLA+ model checking (TLC) + TLC-enumerated scenarios replayed on the purge commands + TLC trace validation of "
                    "the lock race"),
+    dict(id="C20",
+         text="Paths.tla defines the metadata path grammar as executable TLA+ operators over code-point sequences (Build, the "
+              "strict parsers of the metadata / consumable / purge namespaces, GeneratedPath, the name alphabets; index values "
+              "as digit strings up to 2^64-1). TLC checks ParseInvertsBuild, NoCrossKindCollision, PrefixIsolation, "
+              "ReservedAreGenerated and ValidNamesNeverContainSeparators on the abstract domain (every name up to a length "
+              "over one representative per character class, KSUID tokens and extreme literals). Gen_Paths then emits every "
+              "object, path mutation, reserved-location candidate, name and descriptor population together with the values "
+              "the specification defines; the harness instantiates the class tokens with random members of the Unicode "
+              "classes, calls every GetArchivePath*/GetConsumablePath*/Generate*Path builder, GetArchivePathComponents, "
+              "GetConsumableStorePathMetadata, ReverseIndexChunk, IsGeneratedFile, ValidateRepo, ValidateLabel and the yaml "
+              "Marshal/Unmarshal of every descriptor type, and compares",
+         design_ref="§3 C20",
+         note="Trusted: TLC, the refinement map (class token -> member of Go's unicode tables), the comparison code. Valid "
+              "values: repo/context names = letters, digits, hyphen; labels additionally connector punctuation; ids = KSUIDs; "
+              "split ids = KSUIDs or label-alphabet names (none documented). Non-ASCII Unicode-Hyphen characters are "
+              "ambiguous in the docs: either answer accepted. Parsers accepting malformed paths, hostile ids and unclean "
+              "paths are observations, not verdicts. yaml fidelity is exercised with spec-chosen value classes, not modelled. "
+              "Bounds: quick = 9 k model states, 7.7 k cases; thorough = 64 k states, 88.7 k cases x 3 instantiations",
+         technique="TLA+ model checking (TLC) of the path grammar + TLC-generated cases with specification-defined results "
+                   "compared against pkg/model (TLC as oracle)"),
     dict(id="C21",
          text="Params.tla states the sidecar's env-var format as an executable decoder (first character item separator, "
               "second key/value separator, neither '.', empty items dropped, item without separator = flag, only field 2 of "
